@@ -77,10 +77,88 @@ def check_casts(ctx, B, rule, include_float=True, reviewed=None):
             ctx.ok(rule, inst, 'value range [%s, %s] fits %s' % (rng[0], rng[1], rv['to']), where)
         elif inst in reviewed:
             ctx.ok(rule, inst, 'reviewed: ' + reviewed[inst], where)
-        elif R.mentions(bb, c):
+        elif c not in R.facts_at(bb) and R.mentions(bb, c):
             ctx.undecided(rule, inst, 'a dominating condition mentions the value but its range [%s, %s] '
                           'could not be shown to fit %s' % (rng[0], rng[1], rv['to']), where)
         else:
             ctx.bad(rule, inst, 'lossy cast %s -> %s of %s: value range [%s, %s] does not fit and no dominating '
                     'guard mentions the value' % (rv['from'], rv['to'], describe(B, c), rng[0], rng[1]), where, key)
     return n
+
+
+# ------------------------------------------------------------------ LOCK ----
+
+def _moved_locals(op):
+    if op['k'] == 'mv':
+        return [op['pl']['l']]
+    return []
+
+
+def guard_flow(B, acquire_bb):
+    """Forward must-dataflow of 'which locals hold the guard returned by the call
+    terminating acquire_bb'.  Returns (state_in, state_before_term): dict bb -> frozenset
+    of holder locals (missing key = not reachable from the acquisition).
+    The guard moves with `move` operands (assignments, aggregates, call arguments
+    -> call destination) and dies at Drop terminators / mem::drop of a holder."""
+    t0 = B.blocks[acquire_bb]['t']
+    start = t0.get('t')
+    if start is None:
+        return {}, {}
+    init = frozenset([t0['dst']['l']])
+    state_in = {start: init}
+    before_term = {}
+    work = [start]
+    while work:
+        bb = work.pop()
+        H = set(state_in[bb])
+        blk = B.blocks[bb]
+        for st in blk['s']:
+            if st['k'] != '=':
+                continue
+            rv = st['rv']
+            moved = []
+            if rv['k'] == 'use':
+                moved = _moved_locals(rv['op'])
+            elif rv['k'] == 'agg':
+                for o in rv['ops']:
+                    moved += _moved_locals(o)
+            elif rv['k'] == 'cast':
+                moved = _moved_locals(rv['op'])
+            hit = [m for m in moved if m in H]
+            if hit:
+                for m in hit:
+                    H.discard(m)
+                H.add(st['pl']['l'])
+            elif not st['pl'].get('p') and st['pl']['l'] in H and rv['k'] != 'ref':
+                # holder overwritten: old guard dropped by the assignment
+                H.discard(st['pl']['l'])
+        before_term[bb] = frozenset(H)
+        t = blk['t']
+        out = set(H)
+        if t['k'] == 'drop':
+            l = t['pl']['l']
+            if l in out and not t['pl'].get('p'):
+                out.discard(l)
+        elif t['k'] == 'call':
+            moved = []
+            for a in t['args']:
+                moved += _moved_locals(a)
+            hit = [m for m in moved if m in out]
+            if hit:
+                for m in hit:
+                    out.discard(m)
+                if not is_call_to(t, 'core::mem::drop'):
+                    out.add(t['dst']['l'])
+        elif t['k'] == 'ret':
+            pass
+        for s in B.succ(bb):
+            new = frozenset(out)
+            if s in state_in:
+                meet = state_in[s] & new
+                if meet != state_in[s]:
+                    state_in[s] = meet
+                    work.append(s)
+            else:
+                state_in[s] = new
+                work.append(s)
+    return state_in, before_term
